@@ -104,18 +104,15 @@ func valuePaths(v ssa.Value) []string {
 		case *ssa.Builtin:
 			return []string{"builtin:" + v.Name()}
 		case *ssa.Alloc:
-			vals, _ := allocStores(v)
-			if len(vals) == 0 {
-				return []string{"alloc:" + v.Comment}
+			// the address of a local; a parameter spilled because a closure/defer captures it or
+			// its address is taken (value receivers) stands for that parameter
+			if prm := spilledParam(v); prm != nil {
+				return []string{prm.Name()}
 			}
-			var out []string
-			for _, sv := range vals {
-				out = append(out, rec(sv, depth+1, seen)...)
-			}
-			return out
+			return []string{"alloc:" + v.Comment}
 		case *ssa.UnOp:
 			if v.Op == token.MUL {
-				return rec(v.X, depth+1, seen)
+				return loadPaths(v.X, depth+1, seen, rec)
 			}
 			return one(v.X, "")
 		case *ssa.FieldAddr:
@@ -326,4 +323,85 @@ func rootedAt(paths []string, root string) bool {
 		}
 	}
 	return true
+}
+
+// spilledParam returns the parameter whose value is the only thing ever stored into a.
+func spilledParam(a *ssa.Alloc) *ssa.Parameter {
+	vals, _ := allocStores(a)
+	if len(vals) != 1 {
+		return nil
+	}
+	prm, _ := vals[0].(*ssa.Parameter)
+	return prm
+}
+
+// loadPaths renders the value obtained by loading from address addr, looking through
+// local cells (allocs, fields of local structs, captured variables).
+func loadPaths(addr ssa.Value, depth int, seen map[ssa.Value]bool, rec func(ssa.Value, int, map[ssa.Value]bool) []string) []string {
+	if depth > 40 {
+		return []string{"?deep"}
+	}
+	if fv, ok := addr.(*ssa.FreeVar); ok {
+		if b := freeVarBinding(fv); b != nil {
+			addr = b
+		}
+	}
+	switch a := addr.(type) {
+	case *ssa.Alloc:
+		vals, _ := allocStores(a)
+		if len(vals) == 0 {
+			return []string{"alloc:" + a.Comment}
+		}
+		var out []string
+		for _, sv := range vals {
+			out = append(out, rec(sv, depth+1, seen)...)
+		}
+		return out
+	case *ssa.FieldAddr:
+		base := a.X
+		if fv, ok := base.(*ssa.FreeVar); ok {
+			if b := freeVarBinding(fv); b != nil {
+				base = b
+			}
+		}
+		fname := "." + fieldName(a.X.Type(), a.Field)
+		switch base.(type) {
+		case *ssa.Alloc, *ssa.FieldAddr:
+			var out []string
+			for _, p := range loadPaths(base, depth+1, seen, rec) {
+				out = append(out, p+fname)
+			}
+			// direct stores into this field of the local cell
+			if al, ok := base.(*ssa.Alloc); ok {
+				direct := false
+				for _, r := range *al.Referrers() {
+					if fa, ok := r.(*ssa.FieldAddr); ok && fa.Field == a.Field {
+						for _, rr := range *fa.Referrers() {
+							if st, ok := rr.(*ssa.Store); ok && st.Addr == fa {
+								out = append(out, rec(st.Val, depth+1, seen)...)
+								direct = true
+							}
+						}
+					}
+				}
+				if direct {
+					// the whole-struct paths remain possible only if the struct was stored whole
+					if vals, _ := allocStores(al); len(vals) == 0 {
+						var only []string
+						for _, p := range out {
+							if !strings.HasPrefix(p, "alloc:") {
+								only = append(only, p)
+							}
+						}
+						if len(only) > 0 {
+							out = only
+						}
+					}
+				}
+			}
+			return out
+		}
+		return rec(a, depth+1, seen)
+	}
+	return rec(addr, depth+1, seen)
 }
